@@ -561,11 +561,22 @@ class RealPayloadDecoder(AbstractSimplePayloadDecoder):
                 if fo & 0x3 == 0x1:  # NR1
                     value = (int(chunk), 10, 0)
 
-                elif fo & 0x3 == 0x2:  # NR2
-                    value = float(chunk)
+                elif fo & 0x3 in (0x2, 0x3):  # NR2, NR3
+                    # keep the decimal digits as they are: going through
+                    # float() would round the value
+                    float(chunk)  # syntax check
 
-                elif fo & 0x3 == 0x3:  # NR3
-                    value = float(chunk)
+                    text = chunk.decode('ascii').strip().lower().replace(',', '.')
+
+                    mantissa, _, exponent = text.partition('e')
+                    integral, _, fraction = mantissa.partition('.')
+
+                    if integral.lstrip('+-').isdigit() or fraction.isdigit():
+                        value = (int(integral + fraction), 10,
+                                 int(exponent or '0') - len(fraction))
+
+                    else:  # spelled-out special values
+                        value = float(chunk)
 
                 else:
                     raise error.SubstrateUnderrunError(
